@@ -1,6 +1,7 @@
 pub mod common;
 pub mod c01;
 pub mod c03;
+pub mod c09;
 pub mod c14;
 pub mod c19;
 
@@ -14,6 +15,7 @@ pub fn registry(id: &str) -> Option<(RunFn, ReplayFn)> {
     match id {
         "C01" => Some((c01::run, c01::replay)),
         "C03" => Some((c03::run, c03::replay)),
+        "C09" => Some((c09::run, c09::replay)),
         "C14" => Some((c14::run, c14::replay)),
         "C19" => Some((c19::run, c19::replay)),
         _ => None,
